@@ -752,6 +752,16 @@ def refresh_covers_unfinished(ctx, rule):
                 {k.arg: norm(k.value) for k in q[0].keywords} == {
                     'workflow_execution_id': 'self.wf_ex.id',
                     'state': 'states.WAITING'}
+            # the WAITING tasks are looked up AFTER the dispatch: a join that
+            # the dispatch has just created must be among them
+            orig = [x for x in own_nodes(rs.node)
+                    if isinstance(x, ast.Call) and
+                    U.call_name(x) == 'get_task_executions']
+            qn = rcfg.node_of(orig[0]) if len(orig) == 1 else None
+            okq = okq and qn is not None and \
+                rcfg.dominates(cont[0][0], qn)
+            if not okq:
+                why = 'the WAITING tasks are not read after the dispatch'
             ok = okq and norm(c.args[0]) == '%s.id' % norm(lp.target) and \
                 not [x for b in lp.body for x in ast.walk(b)
                      if isinstance(x, (ast.Break, ast.Continue, ast.Return,
